@@ -15,7 +15,17 @@ except:
     SUFFIXES = [s for s, _, _ in imp.get_suffixes()]
 
 SOURCE_SUFFIXES = ('.py',)
-IDENTIFIER = re.compile(r'(?!\d)\w+$', re.UNICODE)
+IDENTIFIER = re.compile(r'(?!\d)\w+\Z', re.UNICODE)
+
+
+def is_identifier(name):
+    # type: (str) -> bool
+    # what an import statement can name ('\w' alone also accepts digits like
+    # a superscript two)
+    try:
+        return name.isidentifier()
+    except AttributeError:
+        return bool(IDENTIFIER.match(name))
 
 if False:
     import typing as t
@@ -77,7 +87,7 @@ class Project(object):
 
         # a file or directory whose name is not an identifier ('my-script.py')
         # cannot be named in an import statement
-        return set(m for m in modules if IDENTIFIER.match(m))
+        return set(m for m in modules if is_identifier(m))
 
     def _package_dirs(self, name):
         # type: (str) -> list[str]
